@@ -141,6 +141,56 @@ pub fn lll_small(s: &mut Src) -> R {
     ob!(&(sr.p().unwrap() * &a) * sr.q().unwrap() == *sr.result(), "snf[P,Q-only]::D==P.A.Q");
     Ok(())
 }
+// C10, clause "reduced" on matrices with more than three rows (the plain LLL driver walks several earlier rows only from the fourth row on):
+// 4 x 4 and 5 x 4 ... here 4 x 4 and 5 x 5 integer bases with small entries; exact rational Gram-Schmidt of the result.
+fn gs_check(b: &Mat<i64>, n: usize) -> std::result::Result<(), &'static str> {
+    let row = |i: usize| (0..n).map(|c| Fr(b[(i, c)] as i128, 1)).collect::<Vec<_>>();
+    let dot = |x: &Vec<Fr>, y: &Vec<Fr>| (0..n).fold(Fr(0, 1), |acc, c| acc.add(x[c].mul(y[c])));
+    let mut bs: Vec<Vec<Fr>> = vec![];
+    let mut mu = vec![vec![Fr(0, 1); n]; n];
+    for i in 0..n {
+        let mut v = row(i);
+        for j in 0..i {
+            let nj = dot(&bs[j], &bs[j]);
+            if nj.0 == 0 { return Err("lll::rows-independent"); }
+            mu[i][j] = dot(&row(i), &bs[j]).div(nj);
+            for c in 0..n { v[c] = v[c].sub(mu[i][j].mul(bs[j][c])); }
+        }
+        bs.push(v);
+    }
+    for i in 0..n { for j in 0..i { if !mu[i][j].abs().le(Fr(1, 2)) { return Err("lll::size-reduced(|mu_ij|<=1/2)"); } } }
+    for k in 1..n {
+        let lhs = dot(&bs[k], &bs[k]);
+        let rhs = Fr(3, 4).sub(mu[k][k - 1].mul(mu[k][k - 1])).mul(dot(&bs[k - 1], &bs[k - 1]));
+        if !rhs.le(lhs) { return Err("lll::Lovasz-condition(alpha=3/4)"); }
+    }
+    Ok(())
+}
+fn rank_full(a: &Mat<i64>, n: usize) -> bool {
+    // fraction-free elimination on i128 copies
+    let mut m: Vec<Vec<i128>> = (0..n).map(|i| (0..n).map(|j| a[(i, j)] as i128).collect()).collect();
+    let mut prev: i128 = 1;
+    for k in 0..n {
+        let Some(pr) = (k..n).find(|&i| m[i][k] != 0) else { return false };
+        m.swap(k, pr);
+        for i in k + 1..n { for j in k + 1..n { m[i][j] = (m[i][j] * m[k][k] - m[i][k] * m[k][j]) / prev; } }
+        prev = m[k][k];
+    }
+    true
+}
+pub fn lll_rows45(s: &mut Src) -> R {
+    let n = s.small(4, 5) as usize;
+    let mut e = vec![0i64; n * n];
+    for k in 0..n * n { e[k] = s.small(-4, 4); }
+    let a = Mat::from_data((n, n), e);
+    pre!(rank_full(&a, n));
+    reach!();
+    let (b, p) = lll(&a, true);
+    let p = p.unwrap();
+    ob!(&p * &a == b, "lll::B==P.A");
+    match gs_check(&b, n) { Ok(()) => {}, Err(name) => { ob!(false, name); } }
+    Ok(())
+}
 // C09 / C10: the ASSUMED contracts of the dense matrix container's elementary operations, tested against the real `Mat`:
 // each operation equals left / right multiplication by the elementary matrix the overlays (units snf_prims, lll_prims) name.
 pub fn snf_mat_ops(s: &mut Src) -> R {
@@ -172,4 +222,4 @@ pub fn snf_mat_ops(s: &mut Src) -> R {
     }
     Ok(())
 }
-crate::harness_table!(SNF: snf_small [unwind 4], snf_gauss_small [unwind 4], trans_small [unwind 4], lll_small [unwind 4], snf_mat_ops [unwind 4]);
+crate::harness_table!(SNF: snf_small [unwind 4], snf_gauss_small [unwind 4], trans_small [unwind 4], lll_small [unwind 4], snf_mat_ops [unwind 4], lll_rows45 [unwind 4]);
